@@ -216,7 +216,7 @@ def configure_program(model, info, art):
     from replay import c16_spec as S
     from replay.common import real
     from bluesky import RunEngine
-    program, flyer, clause = info["program"], info.get("flyer"), art.get("obligation")
+    program, flyer, clause = info["program"], info.get("flyer"), info.get("clause") or art.get("obligation")
     problems = []
     spec = S.native_spec(problems)
     b, out = _bundler(False)
@@ -293,7 +293,23 @@ def configure_program(model, info, art):
                 for s, ks in streams.items():
                     self.count += 2
                     yield {"data": {k: [self.count - 1, self.count] for k in ks}, "timestamps": {k: [1.0, 2.0] for k in ks}, "time": [1.0, 2.0]}
-        D["fly"] = (EventsFlyer if flyer["kind"] == "events" else PagesFlyer)("fly", [])
+        class AssetsFlyer(FlyBase):
+            first, idx = True, 0
+
+            def describe_collect(self):
+                return {"fx": dict(dk, dtype="array", shape=[1], external="STREAM:")}
+
+            def get_index(self):
+                return self.idx + 2
+
+            def collect_asset_docs(self, index=None):
+                from event_model import StreamRange
+                if self.first:
+                    yield "stream_resource", {"uid": "sr-fx", "data_key": "fx", "mimetype": "x", "uri": "file://x", "parameters": {}}
+                yield "stream_datum", {"uid": f"sr-fx/{self.idx}", "stream_resource": "sr-fx", "descriptor": "",
+                                       "indices": StreamRange(start=self.idx, stop=self.idx + 2), "seq_nums": StreamRange(start=0, stop=0)}
+                self.first, self.idx = False, self.idx + 2
+        D["fly"] = {"events": EventsFlyer, "pages": PagesFlyer, "assets": AssetsFlyer}[flyer["kind"]]("fly", [])
 
     async def act(a):
         if a[0] in ("bundle", "dropped"):
